@@ -142,9 +142,10 @@ def exact_call_posterior(reads, counts, haplotypes, ploidy, freqs, inbreeding):
     return gens, normalise_logs(lj)
 
 
-def snv_homozygosity(reads_col, counts, n_alleles, ploidy, inbreeding):
+def snv_homozygosity(reads_col, counts, n_alleles, ploidy, inbreeding, with_margin=False):
     """Single-SNV posterior probability of each homozygous genotype.
-    reads_col: [n_reads][max_allele] (NaN = gap)."""
+    reads_col: [n_reads][max_allele] (NaN = gap).  with_margin: also return log(second largest joint /
+    largest joint) over all genotypes (how far the posterior is from being decided)."""
     gens = all_genotypes(n_alleles, ploidy)
     freqs = [1.0 / n_alleles] * n_alleles
     haps = [[a] for a in range(n_alleles)]
@@ -158,4 +159,8 @@ def snv_homozygosity(reads_col, counts, n_alleles, ploidy, inbreeding):
     for g, p in zip(gens, post):
         if len(set(g)) == 1:
             out[g[0]] = p
+    if with_margin:
+        srt = sorted(lj, reverse=True)
+        margin = (srt[1] - srt[0]) if len(srt) > 1 else NEG_INF
+        return out, margin
     return out
